@@ -60,15 +60,22 @@ def enumerate_native(ctx, fn, timeout=300):
         p = subprocess.run([os.path.join(d, 'target', 'release', 'twin'), 'enumerate', name], capture_output=True, text=True, timeout=timeout)
     except subprocess.TimeoutExpired:
         return {'status': 'error', 'why': 'native twin timed out'}
+    by_class = {}
+    cases = None
     for line in p.stdout.split('\n'):
         m = re.match(r'TWIN-PASS (\S+) cases=(\d+)', line)
-        if m: return {'status': 'pass', 'cases': int(m.group(2)), 'twin': name}
-        m = re.match(r'TWIN-FAIL (\S+) (?:after=(\d+) )?why=(".*?") case=(\{.*?\})(?: kv=(.*))?$', line)
+        if m: return {'status': 'pass', 'cases': int(m.group(2)), 'twin': name, 'by_class': {}}
+        m = re.match(r'TWIN-DONE (\S+) cases=(\d+)', line)
+        if m: cases = int(m.group(2))
+        m = re.match(r'TWIN-FAIL (\S+) class=(\w+) (?:after=(\d+) )?why=(".*?") case=(\{.*?\})(?: kv=(.*))?$', line)
         if m:
-            case = m.group(4)
+            case = m.group(5)
             try: case = json.loads(case)
             except Exception: pass
-            return {'status': 'fail', 'twin': name, 'why': json.loads(m.group(3)), 'case': case, 'kv': (m.group(5) or '').split()}
+            by_class.setdefault(m.group(2), {'why': json.loads(m.group(4)), 'case': case, 'kv': (m.group(6) or '').split(), 'after': int(m.group(3) or 0)})
+    if by_class:
+        first = min(by_class.values(), key=lambda x: x['after'])
+        return {'status': 'fail', 'twin': name, 'why': first['why'], 'case': first['case'], 'kv': first['kv'], 'by_class': by_class, 'cases': cases}
     return {'status': 'error', 'why': 'no verdict from native twin: ' + (p.stdout + p.stderr)[-500:]}
 
 def kani(ctx, fn, timeout=1200):
